@@ -36,8 +36,13 @@ def _expect_call(R, f, ret, expr, callee, want, what, cons, recv=None):
     for k, v in want.items():
         if got.get(k) != v:
             problems.append('%s=%s, expected %s' % (k, got.get(k), v))
+    # an extra argument that spells out the callee's own default changes nothing
+    a_ = callee.node.args
+    pos_ = list(a_.posonlyargs) + list(a_.args)
+    dflt = {p_.arg: norm(d_) for p_, d_ in zip(pos_[len(pos_) - len(a_.defaults):], a_.defaults)}
+    dflt.update({p_.arg: norm(d_) for p_, d_ in zip(a_.kwonlyargs, a_.kw_defaults) if d_ is not None})
     for k in got:
-        if k not in want:
+        if k not in want and not (k in dflt and got[k] == dflt[k]):
             problems.append('also passes %s=%s' % (k, got[k]))
     R.check(not problems, f, ret, what, '%s: %s' % (what, '; '.join(problems)), construct=cons)
     return not problems
@@ -112,6 +117,8 @@ def D6(m, R):
     chars = eff
     # the two scans: written in place, or through a private counting helper
     txt = '%s.%s' % (f.self_name, TEXT)
+    from ..shapes import local_aliases as _la0, canon as _cn0
+    _al0 = _la0(f)
 
     def scan_of(loop, over=None, among=None):
         """`for c in IT: if c in CH: cnt (+|-)= 1 else: break`  (or `if c not in CH: break` then the step): (IT, CH, counter, step) or None"""
@@ -156,7 +163,7 @@ def D6(m, R):
             return None
         if not (isinstance(inc.target, ast.Name) and const_val(inc.value, None) == 1 and isinstance(inc.op, (ast.Add, ast.Sub))):
             return None
-        return (norm(loop.iter), ch, inc.target.id, 1 if isinstance(inc.op, ast.Add) else -1, loop)
+        return (_cn0(loop.iter, _al0) if loop in list(f.walk()) else norm(loop.iter), ch, inc.target.id, 1 if isinstance(inc.op, ast.Add) else -1, loop)
     facts = []        # (what is scanned, membership set, variable holding the count, sign of the count, node)
     odd = []
     for n in f.walk():
